@@ -243,4 +243,4 @@ def replay(art):
         eval_chains(st)
     else:
         eval_modifiers(st)
-    return [v['detail'] for v in st.viol] or None
+    return runner.fresh_details('C08', st) or None
